@@ -360,7 +360,9 @@ func diff(a, b string, metadata []jd.Metadata) (string, bool, error) {
 		if err != nil {
 			return "", false, err
 		}
-		if str != "{}" {
+		// "{}" is also the merge patch of a non-object replaced by an
+		// empty object: decide by the diff, not by its rendering.
+		if len(diff) > 0 {
 			haveDiff = true
 		}
 	default:
@@ -416,7 +418,9 @@ func diffV2(a, b string, options []v2.Option) (string, bool, error) {
 		if err != nil {
 			return "", false, err
 		}
-		if str != "{}" {
+		// "{}" is also the merge patch of a non-object replaced by an
+		// empty object: decide by the diff, not by its rendering.
+		if len(diff) > 0 {
 			haveDiff = true
 		}
 	default:
